@@ -318,10 +318,11 @@ func checkFlattenOne(prop, tier string, seed int64) int {
 			"constants": mc.Constants, "invariants": []string{"InvC01Inductive", "InvC01", "InvC02", "InvC03", "InvC05", "InvC06", "InvC08", "InvIsPipeline", "InvLemmas"}}
 	}
 	// step-level conformance (L2): how many recorded runs are fully explained by the constructive operators of Flatten.tla
-	conform, drift := 0, map[string]int{}
+	conform, stepChecked, drift := 0, 0, map[string]int{}
 	for _, run := range fc.runs {
 		if v, ok := fc.tlc.Verdicts[run.tid]; ok {
 			if sv, has := v["STEPS"]; has {
+				stepChecked++
 				if sv {
 					conform++
 				} else {
@@ -347,6 +348,7 @@ func checkFlattenOne(prop, tier string, seed int64) int {
 	}
 	delete(drift, "?")
 	rep.Extra["step_conformant_runs"] = conform
+	rep.Extra["step_checked_runs"] = stepChecked
 	if len(drift) > 0 {
 		rep.Extra["model_drift_by_phase"] = drift
 		rep.Notes = append(rep.Notes, fmt.Sprintf("model-drift: %v (phase transitions not explained by Flatten.tla; properties are judged on the recorded states regardless)", drift))
